@@ -2,207 +2,173 @@
 """
 C04 tie by regeneration (DESIGN.md Appendix E): re-derives from /repo/src/matrix_graph.rs
 
-  * const MIN_CAPACITY: usize = <int>;
-  * the body of `to_flat_square_matrix_position(row, column, width)`
-  * the body of `to_lower_triangular_matrix_position(row, column)`
-    (optional `let (row, column) = if row > column { (row, column) } else { (column, row) };`)
-  * the growth rule `cmp::max(<e>.next_power_of_two(), MIN_CAPACITY)`
+  matrix.flatPos      the value of `to_flat_square_matrix_position(row, column, width)`
+  matrix.triPos       the value of `to_lower_triangular_matrix_position(row, column)`
+  matrix.grow         the capacity `extend_flat_square_matrix` grows to when `exact` is false
+                      (`cmp::max(<requested>.next_power_of_two(), MIN_CAPACITY)`), and `matrix.minCapacity`
 
-and writes lean/PetgraphModel/Extracted/Matrix.lean.  `Theorems/C04.lean` proves that the generated
-definitions are the model's (`C04_extracted_agrees`), so a changed formula breaks the build.
-Fail-closed: if a fragment is not recognised the generated file contains a failing `example` naming
-the fragment ("tie broken") and the exit code is 1.
+Each function body is parsed (tools/rustexpr.py), its functional core is evaluated to ONE expression over the parameters
+(single-assignment `let`s inlined, `if` as a value, the tuple-swap idiom and `cmp::max/min` unified, private helpers
+inlined one level), the parameters are renamed positionally and the result is printed in canonical form (sorted sum of
+sorted products; `max`/`min`/`/` opaque with canonical arguments).  So `row * width + column`, `column + width * row`,
+a `let row_start = …;` in between, `x.pow(2)`/`x * x`, the tuple swap and `cmp::max`/`cmp::min` all regenerate the same
+text, and `Theorems/C04.lean` (`C04_extracted_agrees`) proves that text equal to the model's definitions.
 
-usage: tools/extract_matrix.py [--src FILE] [--out FILE] [--check]   (--check: do not write, diff only)
+Outcomes per item: recognised / changed / unrecognised (baseline text kept, correspondence check widened) / broken
+(function or constant missing: fail-closed) — see tools/tielib.py.
+
+usage: tools/extract_matrix.py [--src FILE] [--out FILE] [--write-baseline]
 """
-import re, sys, os
+import sys, os
+sys.path.insert(0, os.path.dirname(os.path.abspath(__file__)))
+import rustexpr as R
+from rustexpr import Unrecognised
+from tielib import Tie, Broken, ROOT
 
-ROOT = os.path.dirname(os.path.dirname(os.path.abspath(__file__)))
 SRC = "/repo/src/matrix_graph.rs"
 OUT = os.path.join(ROOT, "lean", "PetgraphModel", "Extracted", "Matrix.lean")
 
 
-class Broken(Exception):
-    pass
+def free_names(e):
+    return {x[1][0] if len(x[1]) == 1 else "::".join(x[1]) for x in R.walk(e) if x[0] == "path"}
 
 
-# ---- a 40-line arithmetic-expression translator:  + * / ( ) identifiers integer literals -------------
-TOK = re.compile(r"\s*(?:(\d+)|([A-Za-z_][A-Za-z_0-9]*)|(.))")
+def const_env(F):
+    """file-level integer constants (a constant that is a literal may be written either way)"""
+    env = {}
+    for name, defs in F.consts.items():
+        if len(defs) == 1 and defs[0][0][0] == "num":
+            env[name] = defs[0][0]
+    return env
 
 
-def tokenize(s):
-    out = []
-    for num, ident, op in TOK.findall(s):
-        if num:
-            out.append(("n", num))
-        elif ident:
-            out.append(("i", ident))
-        elif op.strip():
-            if op not in "+*/()":
-                raise Broken("unsupported token %r in %r" % (op, s))
-            out.append((op, op))
-    return out
+def the_fn(F, name):
+    c = F.fn(name)
+    if not c:
+        raise Broken("function %s not found" % name)
+    if len(c) > 1:
+        raise Broken("%d functions named %s" % (len(c), name))
+    if c[0].body is None:
+        raise Unrecognised("body of %s does not parse: %s" % (name, c[0].error))
+    return c[0]
 
 
-def parse_expr(toks, allowed):
-    """returns a Lean term (fully parenthesised); grammar: e := t ('+' t)* ; t := f (('*'|'/') f)*"""
-    pos = [0]
-
-    def peek():
-        return toks[pos[0]][0] if pos[0] < len(toks) else None
-
-    def take():
-        t = toks[pos[0]]
-        pos[0] += 1
-        return t
-
-    def factor():
-        k = peek()
-        if k == "n":
-            return take()[1]
-        if k == "i":
-            name = take()[1]
-            if name not in allowed:
-                raise Broken("unknown identifier %r" % name)
-            return name
-        if k == "(":
-            take()
-            e = expr()
-            if peek() != ")":
-                raise Broken("unbalanced parenthesis")
-            take()
-            return "(" + e + ")"
-        raise Broken("unexpected token %r" % (k,))
-
-    def term():
-        e = factor()
-        while peek() in ("*", "/"):
-            op = take()[0]
-            e = "(%s %s %s)" % (e, op, factor())
-        return e
-
-    def expr():
-        e = term()
-        while peek() == "+":
-            take()
-            e = "(%s + %s)" % (e, term())
-        return e
-
-    e = expr()
-    if pos[0] != len(toks):
-        raise Broken("trailing tokens")
-    return e
+def position_fn(F, name, canon):
+    """canonical Lean body of a pure position function with len(canon) usize parameters"""
+    f = the_fn(F, name)
+    params = f.param_names()
+    if len(params) != len(canon):
+        raise Broken("%s has %d parameters, expected %d" % (name, len(params), len(canon)))
+    if None in params:
+        raise Unrecognised("parameter pattern of %s" % name)
+    helpers = {g.name: g for g in F.fns if g.impl is None and g.name != name}
+    v = R.Evaluator(helpers, 1).run_fn(f, [("path", ("_p%d" % i,)) for i in range(len(params))])
+    v = R.subst(v, {("path", (n,)): c for n, c in const_env(F).items()})
+    v = R.rename_params(v, {"_p%d" % i: c for i, c in enumerate(canon)})
+    v = R.norm(v)
+    extra = free_names(v) - set(canon)
+    if extra:
+        raise Unrecognised("%s depends on %s besides its parameters" % (name, ", ".join(sorted(extra))))
+    return R.to_lean(v)
 
 
-def fn_body(src, name, params):
-    sig = r"fn\s+%s\s*\(\s*%s\s*\)\s*->\s*usize\s*\{" % (name, r"\s*,\s*".join(r"%s\s*:\s*usize" % p for p in params))
-    m = re.search(sig, src)
-    if not m:
-        raise Broken("signature of %s" % name)
-    i = m.end()
-    depth, j = 1, i
-    while depth and j < len(src):
-        depth += {"{": 1, "}": -1}.get(src[j], 0)
-        j += 1
-    return src[i:j - 1].strip()
+def grow_rule(F):
+    """(lean text of the non-exact capacity as a function of `want`, MIN_CAPACITY)"""
+    f = the_fn(F, "extend_flat_square_matrix")
+    params = f.param_names()
+    if len(params) != 4 or None in params:
+        raise Broken("extend_flat_square_matrix: expected (node_adjacencies, old_node_capacity, new_node_capacity, exact)")
+    want, exact = params[2], params[3]
+    tails = []
+    def visit(e, guards, loops, role):
+        if role == "tail" and not guards and not loops:
+            tails.append(e)
+    R.walk_inlined(f.body, visit)
+    lens = [c[2][1] for c, g, l, _ in R.collect_inlined(
+        f.body, lambda x: x[0] == "call" and x[1][0] == "path" and x[1][1][-1] == "ensure_len" and len(x[2]) == 2) if not g and not l]
+    if len(tails) != 1:
+        raise Unrecognised("extend_flat_square_matrix: the returned capacity is not a single tail expression")
+    cenv = {("path", (n,)): c for n, c in const_env(F).items()}
+    ren = {want: "want", exact: "exact"}
+    cap = R.norm(R.rename_params(R.subst(tails[0], cenv), ren))
+    # the matrix is resized to cap * cap before the relocation loop
+    if len(lens) != 1:
+        raise Unrecognised("extend_flat_square_matrix: expected one ensure_len call before the loop, found %d" % len(lens))
+    ln = R.norm(R.rename_params(R.subst(lens[0], cenv), ren))
+    if ln != R.norm(("bin", "*", cap, cap)):
+        raise Unrecognised("extend_flat_square_matrix: ensure_len is not called with the square of the returned capacity")
+    if not (cap[0] == "ite" and cap[1] == ("path", ("exact",)) and cap[2] == ("path", ("want",))):
+        raise Unrecognised("extend_flat_square_matrix: capacity is not `if exact { requested } else { … }`: %s" % R.show(cap))
+    g = cap[3]
+    npt = ("mcall", ("path", ("want",)), "next_power_of_two", ())
+    if not (g[0] == "max" and len(g[1]) == 2 and npt in g[1]):
+        raise Unrecognised("growth rule is not max(requested.next_power_of_two(), MIN_CAPACITY): %s" % R.show(g))
+    other = [x for x in g[1] if x != npt][0]
+    if other[0] != "num":
+        raise Unrecognised("MIN_CAPACITY is not an integer constant: %s" % R.show(other))
+    return other[1]
 
 
-def extract(src):
-    items = {}
-    m = re.search(r"const\s+MIN_CAPACITY\s*:\s*usize\s*=\s*(\d+)\s*;", src)
-    if not m:
-        raise Broken("const MIN_CAPACITY")
-    items["min"] = m.group(1)
-
-    body = fn_body(src, "to_flat_square_matrix_position", ["row", "column", "width"])
-    items["flat"] = parse_expr(tokenize(body), {"row", "column", "width"})
-
-    body = fn_body(src, "to_lower_triangular_matrix_position", ["row", "column"])
-    swap = re.match(
-        r"let\s*\(\s*row\s*,\s*column\s*\)\s*=\s*if\s+row\s*>\s*column\s*\{\s*\(\s*row\s*,\s*column\s*\)\s*\}\s*"
-        r"else\s*\{\s*\(\s*column\s*,\s*row\s*\)\s*\}\s*;", body)
-    if swap:
-        items["tri_swap"] = True
-        body = body[swap.end():].strip()
-    else:
-        items["tri_swap"] = False
-        if "let" in body or "if" in body:
-            raise Broken("shape of to_lower_triangular_matrix_position")
-    items["tri"] = parse_expr(tokenize(body), {"row", "column"})
-
-    m = re.search(r"cmp::max\(\s*([A-Za-z_][A-Za-z_0-9]*)\.next_power_of_two\(\)\s*,\s*MIN_CAPACITY\s*\)", src)
-    if not m:
-        raise Broken("growth rule cmp::max(_.next_power_of_two(), MIN_CAPACITY)")
-    items["grow_arg"] = m.group(1)
-    # the rule must be applied to the requested capacity of extend_flat_square_matrix, in its non-exact branch
-    if not re.search(r"let\s+new_node_capacity\s*=\s*if\s+exact\s*\{\s*new_node_capacity\s*\}\s*else\s*\{[^}]*cmp::max\(\s*new_node_capacity\.next_power_of_two\(\)",
-                     src, re.S):
-        raise Broken("growth rule is not `if exact { new_node_capacity } else { max(next_power_of_two, MIN_CAPACITY) }`")
-    return items
-
-
-def render(items):
-    tri = items["tri"]
-    if items["tri_swap"]:
-        tri_def = ("def triPos (row column : Nat) : Nat :=\n"
-                   "  let rc : Nat × Nat := if row > column then (row, column) else (column, row)\n"
-                   "  (fun (row column : Nat) => %s) rc.1 rc.2\n" % tri)
-    else:
-        tri_def = "def triPos (row column : Nat) : Nat := %s\n" % tri
-    return ("-- GENERATED by tools/extract_matrix.py from /repo/src/matrix_graph.rs — do not edit.\n"
-            "namespace PetgraphModel.Extracted.Matrix\n\n"
-            "/-- `const MIN_CAPACITY: usize` -/\n"
-            "def minCapacity : Nat := %s\n\n"
-            "/-- body of `to_flat_square_matrix_position` -/\n"
-            "def flatPos (row column width : Nat) : Nat := %s\n\n"
-            "/-- body of `to_lower_triangular_matrix_position` -/\n"
-            "%s\n"
-            "/-- `cmp::max(new_node_capacity.next_power_of_two(), MIN_CAPACITY)` (non-exact branch) -/\n"
-            "def grow (nextPowerOfTwo : Nat → Nat) (want : Nat) : Nat := max (nextPowerOfTwo want) minCapacity\n\n"
-            "end PetgraphModel.Extracted.Matrix\n") % (items["min"], items["flat"], tri_def)
-
-
-def render_broken(why):
-    return ("-- GENERATED by tools/extract_matrix.py — TIE BROKEN: %s\n"
-            "namespace PetgraphModel.Extracted.Matrix\n"
-            "/-- the extractor no longer recognises the source: %s -/\n"
-            "example : (0 : Nat) = 1 := rfl\n"
-            "end PetgraphModel.Extracted.Matrix\n") % (why, why)
+def build(src_path, write_baseline=False):
+    T = Tie("extract_matrix", write_baseline)
+    where = "src/matrix_graph.rs"
+    try:
+        F = R.parse_file(open(src_path).read())
+        err = None
+    except OSError as e:
+        F, err = None, Broken("cannot read %s: %s" % (src_path, e))
+    except Unrecognised as e:
+        F, err = None, e
+    def guarded(fn):
+        def run():
+            if err is not None:
+                raise err
+            return fn()
+        return run
+    memo = {}
+    def min_cap():
+        if "g" not in memo:
+            try:
+                memo["g"] = grow_rule(F)
+            except (Unrecognised, Broken) as e:
+                memo["g"] = e
+        if isinstance(memo["g"], Exception):
+            raise memo["g"]
+        return memo["g"]
+    parts = []
+    parts.append(T.item("matrix.minCapacity", ["C04"], where + ":extend_flat_square_matrix",
+                        guarded(lambda: "/-- `const MIN_CAPACITY: usize` -/\ndef minCapacity : Nat := %d\n" % min_cap())))
+    parts.append(T.item("matrix.flatPos", ["C04"], where + ":to_flat_square_matrix_position",
+                        guarded(lambda: "/-- value of `to_flat_square_matrix_position` (canonical form) -/\n"
+                                        "def flatPos (row column width : Nat) : Nat := %s\n"
+                                        % position_fn(F, "to_flat_square_matrix_position", ["row", "column", "width"]))))
+    parts.append(T.item("matrix.triPos", ["C04"], where + ":to_lower_triangular_matrix_position",
+                        guarded(lambda: "/-- value of `to_lower_triangular_matrix_position` (canonical form) -/\n"
+                                        "def triPos (row column : Nat) : Nat := %s\n"
+                                        % position_fn(F, "to_lower_triangular_matrix_position", ["row", "column"]))))
+    parts.append(T.item("matrix.grow", ["C04"], where + ":extend_flat_square_matrix",
+                        guarded(lambda: (min_cap(), "/-- capacity `extend_flat_square_matrix` grows to when `exact` is false: "
+                                         "`max(requested.next_power_of_two(), MIN_CAPACITY)`;\nwith `exact` it is the requested capacity; "
+                                         "the vector is resized to the square of it -/\n"
+                                         "def grow (nextPowerOfTwo : Nat → Nat) (want : Nat) : Nat := max (nextPowerOfTwo want) minCapacity\n")[1])))
+    text = ("-- GENERATED by tools/extract_matrix.py from /repo/src/matrix_graph.rs — do not edit.\n"
+            "namespace PetgraphModel.Extracted.Matrix\n\n" + "\n".join(parts) + "\n" + T.flags_lean() +
+            "\nend PetgraphModel.Extracted.Matrix\n")
+    return T, text
 
 
 def main():
     args = sys.argv[1:]
-    src, out, check = SRC, OUT, False
+    src, out, wb = SRC, OUT, False
     while args:
         a = args.pop(0)
-        if a == "--src":
-            src = args.pop(0)
-        elif a == "--out":
-            out = args.pop(0)
-        elif a == "--check":
-            check = True
+        if a == "--src": src = args.pop(0)
+        elif a == "--out": out = args.pop(0)
+        elif a == "--write-baseline": wb = True
         else:
-            print(__doc__)
-            return 2
-    try:
-        text = render(extract(open(src).read()))
-        rc = 0
-    except Broken as e:
-        text = render_broken(str(e))
-        rc = 1
-        print("extract_matrix: tie broken:", e)
-    old = open(out).read() if os.path.exists(out) else None
-    if check:
-        print("extract_matrix: %s" % ("unchanged" if old == text else "DIFFERS from " + out))
-        return rc if old == text else 1
-    if old != text:
-        os.makedirs(os.path.dirname(out), exist_ok=True)
-        with open(out, "w") as f:
-            f.write(text)
-        print("extract_matrix: wrote", out)
-    else:
-        print("extract_matrix: unchanged")
-    return rc
+            print(__doc__); return 2
+    T, text = build(src, wb)
+    return T.finish(out, text)
 
 
 if __name__ == "__main__":
